@@ -162,8 +162,9 @@ CLAIMED = {
              "denotation) two listings of the same inputs dictionary compile a routine to the same tree, all children identically. "
              "Children (SiblingOrderFacts, compile_children_swap / go_children_swap): two neighbouring children of the processing order "
              "that are not wired to each other and feed no common port can be compiled in either order - the same two compiled "
-             "children, the same later children, an equivalent parameter map; any two topological orders are connected by such swaps. "
-             "Partial: the composition of swaps into arbitrary topological orders, the parent's own values after its children, independence from the choice among topological processing orders and order-insensitivity of "
+             "children, the same later children, an equivalent parameter map; and so (compile_children_reorder / go_children_reorder) for any "
+             "two processing orders connected by a sequence of such swaps: the same children as a multiset, an equivalent map. "
+             "Partial: that every two topological orders are connected by such swaps, the parent's own values after its children, independence from the choice among topological processing orders and order-insensitivity of "
              "the preprocessing stages are exercised by the hier-permute stream (all list-valued fields permuted at every level; "
              "thorough: all child permutations up to 4 children) on the real code.",
         design_ref="DESIGN.md section 5 C09",
